@@ -1193,6 +1193,29 @@ func (g *Gen) genRead(t *rapid.T) *Op {
 	}
 	op.Comps = []int{rapid.IntRange(0, comps.N-1).Draw(t, "comp")}
 	op.M = rapid.IntRange(0, len(MapInsts)-1).Draw(t, "mapper")
+	op.N = rapid.IntRange(0, 11).Draw(t, "pos")
+	if m.alive(op.E) && rapid.IntRange(0, 5).Draw(t, "uncheckedRelation") == 0 {
+		// unchecked relation accessors, on alive entities only; aim at components the entity has
+		op.Mode = 10 + rapid.IntRange(0, 1).Draw(t, "uncheckedKind")
+		e := &m.Ents[op.E]
+		if rl := listOf(e.Mask & comps.RelMask); len(rl) > 0 && rapid.IntRange(0, 3).Draw(t, "hasIt") != 0 {
+			op.Comps = []int{rapid.SampledFrom(rl).Draw(t, "relComp")}
+			var l []int
+			for i := 2 * comps.N; i < len(MapInsts); i++ {
+				if MapInsts[i].Mask&(1<<uint(op.Comps[0])) != 0 {
+					l = append(l, i)
+				}
+			}
+			if op.Mode == 11 && len(l) > 0 {
+				op.M = rapid.SampledFrom(l).Draw(t, "relMapper")
+				for j, cc := range MapInsts[op.M].Comps {
+					if cc == op.Comps[0] {
+						op.N = j
+					}
+				}
+			}
+		}
+	}
 	return op
 }
 
